@@ -38,7 +38,8 @@ def gen_case(rng: random.Random, tier: str) -> dict:
     if rng.random() < 0.3:
         gen.add_falsy_consts(rng, g)  # legal but falsy outputs: 0, False, "", [], None
     return {"graph": g, "inputs": inp, "select": select, "async": [gen.gen_async_cfg(rng) for _ in range(2)],
-            "touch": rng.random() < 0.3, "kw_split": rng.randrange(1 << 30) if rng.random() < 0.3 else None}
+            "touch": rng.random() < 0.3, "kw_split": rng.randrange(1 << 30) if rng.random() < 0.3 else None,
+            "api": {"decorators": rng.random() < 0.3, "explicit_edges": False, "wrap_async": rng.random() < 0.25}}
 
 
 def _provided(doc: dict, graph) -> dict:
@@ -104,7 +105,7 @@ def _gspec(doc: dict) -> dict:
         g["select"] = doc["select"]
     if doc.get("touch"):
         g["touch"] = True
-    return g
+    return gen.with_api(g, doc.get("api"))
 
 
 def run_case(doc: dict) -> dict:
@@ -121,6 +122,16 @@ def run_case(doc: dict) -> dict:
             w["label"] = label
             worlds.append(w)
             rts.append(w["rt"])
+        # an iteration budget equal to the number of steps the DAG needs is enough (the run has just finished, it is not looping)
+        from hgsim.loops import top_steps
+
+        S = len(top_steps(worlds[0]["rt"]))
+        if S >= 1 and getattr(worlds[0]["rt"], "tap_active", False):
+            for label, mode, cfg in (("sync_exact_budget", "sync", None), ("async_exact_budget", "async", doc["async"][0])):
+                w = _run(doc, gspec, mode, cfg, bind, run_kwargs={"max_iterations": S})
+                w["label"] = label
+                worlds.append(w)
+                rts.append(w["rt"])
     except BuildError as e:
         res["discard"] = "build_error"
         res["stats"]["build_error"] = 1
@@ -155,8 +166,8 @@ def run_case(doc: dict) -> dict:
     return res
 
 
-def _run(doc: dict, gspec: dict, mode: str, cfg, bind: dict) -> dict:
-    w = run_world(gspec, lambda graph: _provided(doc, graph), mode=mode, cfg=cfg, bind=bind, kw_split=doc.get("kw_split"))
+def _run(doc: dict, gspec: dict, mode: str, cfg, bind: dict, run_kwargs: dict | None = None) -> dict:
+    w = run_world(gspec, lambda graph: _provided(doc, graph), mode=mode, cfg=cfg, bind=bind, kw_split=doc.get("kw_split"), run_kwargs=run_kwargs)
     w["prov"] = w["values"]
     return w
 
@@ -209,7 +220,7 @@ def shrink_candidates(doc: dict):
             c = copy.deepcopy(doc)
             del c["async"][i]
             yield c
-    for key in ("touch", "kw_split"):
+    for key in ("touch", "kw_split", "api"):
         if doc.get(key):
             c = copy.deepcopy(doc)
             c[key] = None
